@@ -8,7 +8,7 @@
   expandModule / applyAugment for module-level augments (the added nodes keep the namespace of the module
   the augment is written in), getDataDescendant (path steps are schema node identifiers: choices and cases
   count).  Cycles among groupings have been rejected before (validateGrouping); `fuel` bounds the walk.
-  when / status on uses and augment, and refines of must / description / reference are outside this model.
+  when on uses and augment, and refines of must / description / reference are outside this model.
 -/
 import YV.Model.YCfg
 namespace YV.C
@@ -32,6 +32,7 @@ inductive G where
   | case (name : Tok) (m : Meta) (kids : List G)
   | uses (gname : Tok) (iff : List Tok) (refines : List Refine) (augs : List G)
   | aug (path : List Tok) (iff : List Tok) (kids : List G)     -- only as an element of `augs`
+  | stat (st : Nat) (inner : G)      -- a uses (or an augment under a uses) that carries a status statement
 
 /-- write the refined statement (applyChange with cardinality 1: replace) -/
 def setRefine (a : A) (p : RProp) (v : Bytes) : A :=
@@ -49,6 +50,10 @@ def setRefine (a : A) (p : RProp) (v : Bytes) : A :=
   | _, a => a
 
 def addIff (fs : List Tok) (a : A) : A := a.setMeta { a.meta with iff := a.meta.iff ++ fs }
+
+/-- the status written on a uses / augment goes to every node it introduces that has none of its own
+    (`inheritCommonProperties` appends the statement; the first status statement of a node counts) -/
+def addSt (st : Nat) (a : A) : A := if a.meta.st.isSome then a else a.setMeta { a.meta with st := some st }
 
 def A.kids : A → List A
   | .container _ _ _ k => k | .list _ _ _ _ _ k => k | .choice _ _ _ _ c => c | .case _ _ k => k
@@ -89,6 +94,9 @@ def applyUsesAug (expand : List G → Except String (List A)) (acc : List A) : G
   | .aug path aiff aks => do
     let aks' ← expand aks
     addKidsAt acc path (aks'.map (addIff aiff))
+  | .stat st (.aug path aiff aks) => do
+    let aks' ← expand aks
+    addKidsAt acc path ((aks'.map (addIff aiff)).map (addSt st))
   | _ => pure acc
 
 mutual
@@ -125,6 +133,9 @@ def expandOne (env : GEnv) (ns : Tok) : Nat → G → Except String (List A)
       let kids ← refines.foldlM applyRefine (kids.map (addIff iff))
       augs.foldlM (applyUsesAug (expandKids env ns fuel)) kids
   | _ + 1, .aug .. => pure []
+  | fuel + 1, .stat st g => do
+    let r ← expandOne env ns fuel g
+    pure (r.map (addSt st))
 end
 
 structure ModAug where
@@ -132,13 +143,14 @@ structure ModAug where
   path : List Tok
   iff : List Tok
   kids : List G
+  st : Option Nat := none  -- a status statement on the augment
 
 /-- `expandModule`: the body, then the augments in the order written -/
 def expandModule (env : GEnv) (fuel : Nat) (body : List G) (augs : List ModAug) : Except String (List A) := do
   let b ← expandKids env (msg "m") fuel body
   augs.foldlM (fun acc a => do
     let ks ← expandKids env a.ns fuel a.kids
-    addKidsAt acc a.path (ks.map (addIff a.iff))) b
+    addKidsAt acc a.path ((ks.map (addIff a.iff)).map fun k => match a.st with | some s => addSt s k | none => k)) b
 
 /-- a definition without uses, as an element of `G` -/
 def embed : A → G
